@@ -177,6 +177,7 @@ def setCode (code : Bytes) : EM Bool := do
 /-- `runFirst`: returns whether to go on with the VM -/
 def runFirstBody (env : Env) (cfg : Cfg) (fn : Nat → Option Bytes → Option Bytes → ExtResult) : EM Bool := do
   let e ← get
+  let idx0 := e.vm.st.sizeIdx     -- the page the session is on (restored at the end, fix: commit)
   -- ca.Push(); st.Down("_first")
   let firstSym : Bytes := [95, 102, 105, 114, 115, 116]   -- "_first"
   match e.vm.st.down firstSym with
@@ -193,7 +194,7 @@ def runFirstBody (env : Env) (cfg : Cfg) (fn : Nat → Option Bytes → Option B
     let code := newLine Facts.opLOAD [firstSym] (some [0]) none ++ newLine Facts.opHALT [] none none
     let (r, pvm') := runLoop env' cfg.fuel (langOfEng e) code pvm
     modify fun e => { e with vm := { e.vm with st := pvm'.st, ca := pvm'.ca, ghost := pvm'.ghost } }
-    -- the deferred calls, in LIFO order: ResetFlag(DIRTY), ResetFlag(TERMINATE), st.Up(), ca.Pop()
+    -- the deferred calls, in LIFO order: ResetFlag(DIRTY), ResetFlag(TERMINATE), st.Up(), ca.Pop(), page index restored
     let finish : EM Unit := do
       let _ ← vm (resetFlagM Facts.dirtyFlag)
       let _ ← vm (resetFlagM Facts.terminateFlag)
@@ -202,6 +203,7 @@ def runFirstBody (env : Env) (cfg : Cfg) (fn : Nat → Option Bytes → Option B
       | .ok (_, st') => modify fun e => { e with vm := { e.vm with st := st' } }
       | _ => pure ()
       modify fun e => { e with vm := { e.vm with ca := e.vm.ca.pop.1 } }
+      modify fun e => { e with vm := { e.vm with st := { e.vm.st with sizeIdx := idx0 } } }
     match r with
     | .panic p => fun e => (.panic p, e)
     | .err k m => do
